@@ -136,6 +136,8 @@ def make_cna(columns, meta=None, index=None, odd=False):
         index = np.arange(len(df)) * 2 + 5
     if index is not None:
         df.index = index
+    if meta == "none":
+        return CopyNumArray(df)            # a table built without any metadata, as library users and several internal call sites do
     return CopyNumArray(df, meta or {"sample_id": "S"})
 
 
